@@ -12,6 +12,7 @@ pub mod c09;
 pub mod c10;
 pub mod c11;
 pub mod c12;
+pub mod c13;
 pub mod c17;
 pub mod c18;
 pub mod c19;
@@ -30,6 +31,7 @@ pub fn lookup(id: &str) -> Option<&'static dyn Property> {
         "C10" => &c10::C10,
         "C11" => &c11::C11,
         "C12" => &c12::C12,
+        "C13" => &c13::C13,
         "C17" => &c17::C17,
         "C18" => &c18::C18,
         "C19" => &c19::C19,
